@@ -32,7 +32,7 @@ StateMatches(x, o) ==
   /\ x.invs = {[req |-> o.invs[i][1], rp |-> o.invs[i][2]] : i \in 1..Len(o.invs)}
 
 OutRec(m) == IF m.t \in {"yield", "error"} THEN [t |-> m.t, req |-> m.req, progress |-> m.progress]
-             ELSE IF m.t \in Kinds THEN [t |-> m.t, req |-> m.req] ELSE [t |-> m.t]
+             ELSE IF m.t \in Kinds \cup {"cancel"} THEN [t |-> m.t, req |-> m.req] ELSE [t |-> m.t]
 ReMatches(x, r) ==
   /\ x.out = [i \in 1..Len(r.out) |-> OutRec(r.out[i])]
   /\ x.cbs = r.cbs
@@ -45,7 +45,16 @@ ReMatches(x, r) ==
   /\ x.closes = r.closes
   /\ x.exc = r.exc
 
-Accept(r) == /\ s' = r.s /\ re' = r.re
+\* "retry on error": calls issued from inside errbacks that ran during this step (E.re.retry[i] = the call was accepted).
+\* Each is one more Call applied to the step's result; its CALL goes out after everything the step itself sent.
+RECURSIVE WithRetries(_, _)
+WithRetries(r, k) ==
+  IF k > Len(E.re.retry) THEN r
+  ELSE LET c == Call(r.s, FALSE) IN
+       IF (c.re.exc = "") # E.re.retry[k] THEN Mk(r.s, [r.re EXCEPT !.exc = "retry-mismatch"])      \* accepted iff the transport is up
+       ELSE WithRetries(Mk(c.s, [r.re EXCEPT !.out = @ \o c.re.out]), k + 1)
+Accept(r0) == LET r == WithRetries(r0, 1) IN
+             /\ s' = r.s /\ re' = r.re
              /\ StateMatches(r.s, E.obs) /\ ReMatches(r.re, E.re)
              /\ E.faithful /\ E.valuesOk /\ E.argsOk
 
@@ -56,6 +65,7 @@ TLost == IsEvent("lost") /\ Accept(Lost(s))
 TApi ==
   /\ IsEvent("api")
   /\ Accept(CASE E.name = "call" -> Call(s, E.progress)
+              [] E.name = "cancel" -> CancelCall(s, E.req)
               [] E.name = "publish" -> Publish(s, E.ack)
               [] E.name = "subscribe" -> Subscribe(s, E.h)
               \* subscribe(obj) with two decorated methods = two Subscribe steps in one call
